@@ -70,6 +70,41 @@ def run(ctx):
                     if ctx.quick and rnd.random() > 0.35:
                         continue
                     cases.append({"A": ["T", list(t)], "B": ["T", u]})
+    # pairs that differ in TWO fields at once in the way a positional (mixed-radix / packed / concatenated) key would confuse:
+    # one field at the edge of its range on one side, the neighbouring field one step further and the first absent / at the
+    # other edge on the other side - for every ordered pair of fields
+    RANGE = {"year": (1, 9999), "month": (1, 12), "day": (1, 31), "hour": (0, 23), "minute": (0, 59), "DOW": (0, 6)}
+    names = [f for f, _ in FIELDS]
+    bases = [[2018, 3, 7, 9, 30, 2, None], [None] * 7, [2021, 12, 31, 23, 59, 6, "morning"], [1, 1, 1, 0, 0, 0, None],
+             [None, None, None, 9, None, None, None], [2020, 2, 29, None, None, None, None]] + [list(rnd.choice(times)) for _ in range(6 if ctx.quick else 40)]
+    for b in bases:
+        for i, fi in enumerate(names[:6]):
+            for j, fj in enumerate(names[:6]):
+                if i == j:
+                    continue
+                lo, hi = RANGE[fj]
+                for edge in (hi, lo):
+                    A = list(b)
+                    A[j] = edge
+                    if A[i] is None:
+                        A[i] = RANGE[fi][0] + 1
+                    for step in (1, -1):
+                        vi = A[i] + step
+                        if not (RANGE[fi][0] <= vi <= RANGE[fi][1]):
+                            continue
+                        for other in (None, lo, hi):
+                            B = list(A)
+                            B[i] = vi
+                            B[j] = other
+                            cases.append({"A": ["T", A], "B": ["T", B]})
+                            cases.append({"A": ["I", ["T", A], None], "B": ["I", ["T", B], None]})
+    # random variations of two and three fields over the full ranges
+    for _ in range(4000 if ctx.quick else 60000):
+        A = [rnd.choice([None, rnd.randint(*RANGE[f])]) for f in names[:6]] + [rnd.choice(PS)]
+        B = list(A)
+        for i in rnd.sample(range(7), rnd.choice((2, 3))):
+            B[i] = rnd.choice(PS) if i == 6 else rnd.choice([None, rnd.randint(*RANGE[names[i]]), (A[i] or 0) + 1 if (A[i] or 0) + 1 <= RANGE[names[i]][1] else None])
+        cases.append({"A": ["T", A], "B": ["T", B]})
     base = [None, ["T", [2018, 3, 7, None, None, None, None]], ["T", [2018, 3, 7, 9, 0, None, None]], ["T", [2018, 3, 8, None, None, None, None]],
             ["T", [None, None, None, 9, 0, None, None]], ["T", [None, None, None, 17, None, None, None]], ["T", [None, None, None, None, None, None, "morning"]],
             ["T", [2018, 3, 7, None, None, None, "evening"]]]
